@@ -94,6 +94,23 @@ func genSequential(t *rapid.T) Case {
 	c.CloseErr = rapid.IntRange(0, 3).Draw(t, "closeerr") == 0
 	c.LazyClose = rapid.IntRange(0, 3).Draw(t, "lazyclose") == 0
 	c.WritesFail = rapid.IntRange(0, 3).Draw(t, "writesfail") == 0
+	if rapid.IntRange(0, 5).Draw(t, "grow") == 0 {
+		// the handler table grows beyond its initial ten slots, most of the
+		// early handlers are removed again, a late one stays: then the rest of a
+		// script, or the shutdown at once
+		k := rapid.IntRange(11, 15).Draw(t, "grown")
+		for i := 0; i < k; i++ {
+			c.Ops = append(c.Ops, Op{Kind: "mk", Filter: rapid.SampledFrom([]string{"all", "none", "action"}).Draw(t, "gfilter"), Action: uint32(rapid.IntRange(1, 3).Draw(t, "gaction")), Closer: true})
+		}
+		m := rapid.IntRange(8, k-1).Draw(t, "shrunk")
+		for i := 0; i < m; i++ {
+			c.Ops = append(c.Ops, Op{Kind: "rm", Target: i})
+		}
+		if rapid.Bool().Draw(t, "growclose") {
+			c.Ops = append(c.Ops, Op{Kind: "inject", Action: 1}, Op{Kind: rapid.SampledFrom([]string{"close", "peerclose"}).Draw(t, "growend")})
+			return c
+		}
+	}
 	for i := 0; i < n; i++ {
 		op := genOp(t, i > 8)
 		c.Ops = append(c.Ops, op)
